@@ -4,9 +4,9 @@ from checks import codec_json as cj
 from vlib.core import hx
 
 MODULES = ['TLVerif.Props.C05']
-SOURCES = ["TLVerif.Codec.Json", "TLVerif.Codec.JsonPrim", "TLVerif.Codec.JsonText", "TLVerif.Codec.JsonTextLemmas", "TLVerif.Codec.JsonLemmas",
+SOURCES = ["TLVerif.Codec.Json", "TLVerif.Codec.JsonPrim", "TLVerif.Codec.JsonText", "TLVerif.Codec.JsonTextLemmas", "TLVerif.Codec.JsonLemmas", "TLVerif.Codec.JsonAlt",
            "TLVerif.Codec.Ops.Json"]
-THEOREMS = ["TLVerif.Props.C05.json_valid", "TLVerif.Props.C05.json_numbers_wellformed", "TLVerif.Props.C05.json_roundtrip_fails_at_neg_zero", "TLVerif.Props.C05.json_roundtrip_fails_at_nan_payload", "TLVerif.Props.C05.prim_roundtrip_bool", "TLVerif.Props.C05.prim_roundtrip_string_utf8", "TLVerif.Props.C05.prim_string_non_utf8_is_base64", "TLVerif.Props.C05.prim_float32_specials", "TLVerif.Props.C05.prim_float64_specials"]
+THEOREMS = ["TLVerif.Props.C05.json_valid", "TLVerif.Props.C05.json_numbers_wellformed", "TLVerif.Props.C05.json_roundtrip_fails_at_neg_zero", "TLVerif.Props.C05.json_roundtrip_fails_at_nan_payload", "TLVerif.Props.C05.prim_roundtrip_bool", "TLVerif.Props.C05.prim_roundtrip_string_utf8", "TLVerif.Props.C05.prim_string_non_utf8_is_base64", "TLVerif.Props.C05.prim_float32_specials", "TLVerif.Props.C05.prim_float64_specials", "TLVerif.Props.C05.prim_roundtrip_string", "TLVerif.Props.C05.prim_roundtrip_uint", "TLVerif.Props.C05.prim_roundtrip_int"]
 
 
 def run(c):
